@@ -5,6 +5,7 @@ import ast
 import z3
 
 from . import vtypes as T
+from . import inst
 from .vtypes import INT, BOOL, STR, NONE, FLOAT
 
 I = z3.IntVal
@@ -249,6 +250,17 @@ class Builtins:
             res = z3.SubSeq(content, a, ln) if t.kind != 'str' else z3.SubString(content, a, ln)
             return k(st, T_SV(t, res))
         return ex.ev_list(st, [e.value] + parts, cx, f)
+
+    def all_bytes(self, arr, lo, hi):
+        """arr[lo], ..., arr[hi-1] are byte values (0..255): a recursively defined predicate (unfolded on demand)"""
+        if 'all_bytes' not in self._defs:
+            A = z3.ArraySort(z3.IntSort(), z3.IntSort())
+            f = z3.Function('all_bytes', A, z3.IntSort(), z3.IntSort(), z3.BoolSort())
+            a_, l_, h_ = z3.Const('a!ab', A), z3.Int('lo!ab'), z3.Int('hi!ab')
+            inst.define(f, [a_, l_, h_], z3.Or(h_ <= l_, z3.And(f(a_, l_, h_ - 1), z3.Select(a_, h_ - 1) >= 0,
+                                                                    z3.Select(a_, h_ - 1) <= 255)))
+            self._defs['all_bytes'] = f
+        return self._defs['all_bytes'](arr, lo, hi)
 
     def listcomp(self, st, e, cx, k, ety=None):
         """[elt for v in xs] over a list xs, no filter: a fresh list of the same length whose j-th element is elt at
